@@ -316,7 +316,7 @@ def run_P(steps):
                 except HarnessError:
                     raise
                 except Exception as e:
-                    answers[i] = {"raises": type(e).__name__, "msg": str(e)[:300]}
+                    answers[i] = observe.exc_answer(e)
             elif op == "OBS":
                 try:
                     answers[i] = ex.do_observer(i, st)
@@ -331,7 +331,7 @@ def run_P(steps):
                     raise
                 except Exception as e:
                     W.disarm()
-                    answers[i] = {"raises": type(e).__name__, "msg": str(e)[:300]}
+                    answers[i] = observe.exc_answer(e)
             elif op in FAULTS:
                 ex.do_fault(i, st)
             else:
@@ -378,7 +378,7 @@ def run_Q(steps, upto, observer_step=None, full=False, alt=False, keep_open=Fals
             except SimSinkError as e:
                 raise HarnessError("sink failure in quiescent replay") from e
             except Exception as e:
-                answer = {"raises": type(e).__name__, "msg": str(e)[:300]}
+                answer = observe.exc_answer(e)
     finally:
         if not keep_open:
             ex.close()
